@@ -19,6 +19,7 @@ import (
 
 	"verif/harness/chain"
 	"verif/harness/h"
+	_ "verif/harness/warm"
 )
 
 var P = h.New("C04", "exploration",
